@@ -61,10 +61,23 @@ class RecGen(np.random.Generator):
         g._label = label
         return g
 
+    _depth = 0
+
     def _log(self, method, **kw):
+        if self._depth > 1:      # a draw made by numpy inside another recorded draw (e.g. mvn -> standard_normal)
+            return
         self._rec.emit("Draw", stream=self._label, sid=stream_id(self), method=method, **kw)
 
     def uniform(self, low=0.0, high=1.0, size=None):
+        self._depth += 1
+        try:
+            return self._uniform(low, high, size)
+        finally:
+            self._depth -= 1
+
+    def _uniform(self, low=0.0, high=1.0, size=None):
+        if self._depth > 1:
+            return super().uniform(low, high, size)
         self._rec.tick("uniform")
         before = _state_hash(self.bit_generator)
         u = super().uniform(low, high, size)          # always advance the real stream
@@ -77,6 +90,15 @@ class RecGen(np.random.Generator):
         return u
 
     def choice(self, a, size=None, replace=True, p=None, axis=0, shuffle=True):
+        self._depth += 1
+        try:
+            return self._choice(a, size, replace, p, axis, shuffle)
+        finally:
+            self._depth -= 1
+
+    def _choice(self, a, size=None, replace=True, p=None, axis=0, shuffle=True):
+        if self._depth > 1:
+            return super().choice(a, size=size, replace=replace, p=p, axis=axis, shuffle=shuffle)
         self._rec.tick("choice")
         before = _state_hash(self.bit_generator)
         r = super().choice(a, size=size, replace=replace, p=p, axis=axis, shuffle=shuffle)
@@ -87,6 +109,15 @@ class RecGen(np.random.Generator):
         return r
 
     def multivariate_normal(self, mean, cov, size=None, **kw):
+        self._depth += 1
+        try:
+            return self._mvn(mean, cov, size, **kw)
+        finally:
+            self._depth -= 1
+
+    def _mvn(self, mean, cov, size=None, **kw):
+        if self._depth > 1:
+            return super().multivariate_normal(mean, cov, size=size, **kw)
         self._rec.tick("mvn")
         before = _state_hash(self.bit_generator)
         r = super().multivariate_normal(mean, cov, size=size, **kw)
@@ -94,25 +125,36 @@ class RecGen(np.random.Generator):
                   **({"mean": [float(x) for x in mean], "cov": np.asarray(cov, dtype=float).tolist(), "size": size} if self._rec.mvn else {}))
         return r
 
+    def _passthrough(self, name, a, k):
+        self._depth += 1
+        try:
+            before = _state_hash(self.bit_generator)
+            r = getattr(super(), name)(*a, **k)
+            self._log(name, n=int(np.size(r)) if r is not None else 1, before=before, after=_state_hash(self.bit_generator))
+            return r
+        finally:
+            self._depth -= 1
+
     def random(self, *a, **k):
-        self._log("random")
-        return super().random(*a, **k)
+        return self._passthrough("random", a, k)
 
     def normal(self, *a, **k):
-        self._log("normal")
-        return super().normal(*a, **k)
+        return self._passthrough("normal", a, k)
 
     def integers(self, *a, **k):
-        self._log("integers")
-        return super().integers(*a, **k)
+        return self._passthrough("integers", a, k)
 
     def permutation(self, *a, **k):
-        self._log("permutation")
-        return super().permutation(*a, **k)
+        return self._passthrough("permutation", a, k)
 
     def shuffle(self, *a, **k):
-        self._log("shuffle")
-        return super().shuffle(*a, **k)
+        return self._passthrough("shuffle", a, k)
+
+    def standard_normal(self, *a, **k):
+        return self._passthrough("standard_normal", a, k)
+
+    def beta(self, *a, **k):
+        return self._passthrough("beta", a, k)
 
 
 class ChildProxy:
